@@ -963,7 +963,11 @@ impl RenderContext {
             }
             if transform.is_noop() {
                 let output_channels = transform.output_channels();
-                grid.remove_color_channels(output_channels);
+                // A CMYK profile reports four channels; there are never more than three color
+                // channels in the grid.
+                if output_channels < grid.color_channels() {
+                    grid.remove_color_channels(output_channels);
+                }
                 return Ok(Arc::new(grid));
             }
 
